@@ -21,6 +21,9 @@ type Analyzer struct {
 	ownWrites  map[*ssa.Function]map[string]bool
 	summaries  map[string]*summary
 	calleeCache map[*ssa.Function][]*ssa.Function
+	shortIndex  map[string][]*ssa.Function
+	readsCache  map[*ssa.Function]map[string]bool
+	anchors     *K
 	valsum     map[*ssa.Function]*Term
 }
 
